@@ -360,6 +360,21 @@ def run_history(ns, mon, case):
                     compare_ledger("backward-through-a-deep-copy")
                 except Exception as e:
                     counters["deepcopy_rejected"] = counters.get("deepcopy_rejected", 0) + 1
+            elif r < 0.905:
+                # calls that are neither a backward call nor a reset: unfreeze() of a model whose parameters are all trainable already, train() / eval(),
+                # reading parameters() / num_params() - the accumulated gradients stay what they are
+                which_ = int(rng.integers(4))
+                try:
+                    [w.module.unfreeze, w.module.eval, w.module.train, lambda: (w.module.parameters(), w.module.num_params())][which_]()
+                except Exception:
+                    pass
+                for li_, l_ in enumerate(LEAVES):
+                    if not l_["req"] and w.params[li_].requires_grad:
+                        w.params[li_].requires_grad = False          # (the leaf that is a constant by design stays one)
+                w.events.append([["module.unfreeze()", "module.eval()", "module.train()", "parameters()/num_params()"][which_]])
+                kinds.append("no-op-call")
+                counters["non_reset_calls"] = counters.get("non_reset_calls", 0) + 1
+                compare_ledger("a-call-that-is-not-a-reset")
             else:
                 k = ["zero_tensor", "zero_module", "zero_optimizer"][int(rng.integers(3))]
                 reset(k)
